@@ -77,10 +77,10 @@ func (a *affForm) equal(terms map[string]int64, k int64) bool {
 
 func (a *affForm) coeff(atom string) int64 { return a.terms[atom] }
 
-func affConst(k int64) *affForm        { return &affForm{terms: map[string]int64{}, k: k} }
-func affAtom(s string) *affForm        { return &affForm{terms: map[string]int64{s: 1}} }
-func affBad(reason string) *affForm    { return &affForm{bad: reason} }
-func (a *affForm) isConst() bool       { return a.bad == "" && len(a.nonzero()) == 0 }
+func affConst(k int64) *affForm     { return &affForm{terms: map[string]int64{}, k: k} }
+func affAtom(s string) *affForm     { return &affForm{terms: map[string]int64{s: 1}} }
+func affBad(reason string) *affForm { return &affForm{bad: reason} }
+func (a *affForm) isConst() bool    { return a.bad == "" && len(a.nonzero()) == 0 }
 func (a *affForm) nonzero() []string {
 	var ks []string
 	for k, v := range a.terms {
